@@ -3,14 +3,14 @@
 import json, os, sys
 HERE = os.path.dirname(os.path.dirname(os.path.abspath(__file__)))
 sys.path.insert(0, HERE)
-from tools.claims import CLAIMS, HOOK_COMMITS
+from tools.claims import CLAIMS, HOOK_COMMITS, READY
 
 props = [json.loads(l) for l in open(os.path.join(HERE, "properties.jsonl"))]
 checks, na = [], []
 for p in props:
     pid = p["id"]
     c = CLAIMS.get(pid)
-    if not c or not os.path.exists(os.path.join(HERE, "vf", "props", pid.lower() + ".py")):
+    if not c or pid not in READY or not os.path.exists(os.path.join(HERE, "vf", "props", pid.lower() + ".py")):
         na.append({"property_id": pid, "reason": (c or {}).get("na_reason", "check not built yet in this session; property-based testing applies (see DESIGN.md section 4) but no registered check exists")})
         continue
     checks.append({
